@@ -209,7 +209,7 @@ pub fn cross_alphabet() -> Vec<Op> {
 
 pub fn explore_alpha<F: Fn(&StepViolation) -> bool + Sync>(run: &Run, prop: &str, name: &str, alpha: Vec<Op>, owns: F, depth: usize, isolated: bool, dst: Dst) {
     let na = alpha.len();
-    run.bound(name, if name != "mixed histories" { format!("all well-formed call sequences of length 1..={} over {} calls ({}), auto-closed, on {}x{}; step oracle under the model's clip{}", depth, na, alpha.iter().map(|o| o.kind()).collect::<Vec<_>>().join(", "), W, H, if isolated { " + isolated-surface machine" } else { "" }) } else { format!("all well-formed call sequences of length 1..={} (at full length the last call is a draw or a pop) over a mixed alphabet of {} calls (9 draws of different kinds / modes / sources, 8 clip pushes (one empty, one beside the surface, one path under both winding rules, one path covering everything), pop_clip, 4 layer pushes (one with opacity 0), pop_layer, 4 transforms (one singular); the two stacks are independent), auto-closed, on {}x{}; step oracle under the model's clip{}", depth, na, W, H, if isolated { " + isolated-surface machine" } else { "" }) });
+    run.bound(name, if name != "mixed histories" { format!("all well-formed call sequences of length 1..={} over {} calls ({}), auto-closed, on {}x{}; step oracle under the model's clip{}", depth, na, alpha.iter().map(|o| o.kind()).collect::<Vec<_>>().join(", "), W, H, if isolated { " + isolated-surface machine" } else { "" }) } else { format!("all well-formed call sequences of length 1..={} (at full length, while no layer is open, the last call is not a clip push or a transform change) over a mixed alphabet of {} calls (9 draws of different kinds / modes / sources, 8 clip pushes (one empty, one beside the surface, one path under both winding rules, one path covering everything), pop_clip, 4 layer pushes (one with opacity 0), pop_layer, 4 transforms (one singular); the two stacks are independent), auto-closed, on {}x{}; step oracle under the model's clip{}", depth, na, W, H, if isolated { " + isolated-surface machine" } else { "" }) });
     let _ = prop;
     run.par(na * na, |s, l| {
         fn rec<F: Fn(&StepViolation) -> bool + Sync>(run: &Run, s: usize, l: &mut Local, alpha: &[Op], seq: &mut Vec<Op>, depth: usize, owns: &F, isolated: bool, dst: &Dst) {
@@ -245,7 +245,10 @@ pub fn explore_alpha<F: Fn(&StepViolation) -> bool + Sync>(run: &Run, prop: &str
                 // at the depth bound the last call is a draw or a pop: a push or set_transform in
                 // last position is followed by the closing pops only and adds no transition that the
                 // shorter sequences do not have already
-                if seq.len() + 1 == depth && depth >= 4 && matches!(op, Op::PushClip(_) | Op::PushClipRect(..) | Op::PushLayer(..) | Op::SetTransform(_)) {
+                // (only while no layer is open: the closing pop_layer of an open layer happens *under*
+                // that clip or transform, which is a transition of its own; and a layer push in last
+                // position is followed by the pop of an empty layer under everything before it)
+                if seq.len() + 1 == depth && depth >= 4 && matches!(op, Op::PushClip(_) | Op::PushClipRect(..) | Op::SetTransform(_)) && depths(seq).1 == 0 {
                     continue;
                 }
                 seq.push(op.clone());
